@@ -1026,5 +1026,8 @@ pub mod timer {
 //@closed server/timer.rs | impl SystemTimer | allow=run
 }
 
+//@probeinclude probes_bytes.rs
+//@probeinclude probes_store.rs
+
 } // verus!
 fn main() {}
